@@ -37,6 +37,9 @@ CHECKS = {
  "C15": ("exploration", "exhaustive enumeration of token strings / value trees / symbol strings on the real parser, serialiser and comment stripper under ASan",
          "every token string up to 5 (6) tokens over a 32-token alphabet, every value tree up to 4 (5) nodes, every stripComments input up to 8 (10) symbols; totality, bounds, error position, round trip and comment removal are decided on each",
          "alphabets and sizes are bounded; Variant == decides tree equality", "DESIGN.md §4 C15"),
+ "C16": ("exploration", "exhaustive enumeration of token strings / element trees / comment placements on the real parser and serialiser under ASan, plus handle-history BFS for element value copies",
+         "every token string up to 5 (6) tokens over a 27-token alphabet through both entry points, every element tree of the stated shape space serialised and re-parsed, a comment at every token boundary of every tree, processing instructions with line breaks, nesting to 1000; time and memory watchdogs decide termination",
+         "alphabets and sizes are bounded; comments inside tags are white-space separated", "DESIGN.md §4 C16"),
  "C17": ("exploration", "exhaustive enumeration of message length x chunking shapes on the real code vs hashlib/hmac",
          "every length 0..300 (600 thorough) x 4 content generators, every 2-way and (bounded) 3-way chunking, hasher reuse, "
          "HMAC for every key length 0..200: the padding/carry/key-normalisation logic depends on lengths only, so the shape space is exhausted",
